@@ -809,6 +809,44 @@ func holdsNormalizeFlag(p *core.Prog, v ssa.Value) bool {
 	return n > 0
 }
 
+// regexpPatternOf: v is a load of a package-level *regexp.Regexp variable that is assigned once, in the package
+// initialiser, the result of regexp.MustCompile of a constant: returns that constant.
+func regexpPatternOf(p *core.Prog, v ssa.Value) (string, bool) {
+	ld, ok := v.(*ssa.UnOp)
+	if !ok || ld.Op != token.MUL {
+		return "", false
+	}
+	g, ok := ld.X.(*ssa.Global)
+	if !ok {
+		return "", false
+	}
+	pat, n := "", 0
+	for _, fn := range append(p.SrcFuncs(core.FuncPkgPath(g.Pkg.Func("init"))), g.Pkg.Func("init")) {
+		if fn == nil {
+			continue
+		}
+		for _, b := range fn.Blocks {
+			for _, in := range b.Instrs {
+				st, ok := in.(*ssa.Store)
+				if !ok || st.Addr != ssa.Value(g) {
+					continue
+				}
+				n++
+				call, ok := st.Val.(*ssa.Call)
+				if !ok || core.StaticCalleeName(&call.Call) != "regexp.MustCompile" || fn != g.Pkg.Func("init") {
+					return "", false
+				}
+				s, ok := core.ConstString(call.Call.Args[0])
+				if !ok {
+					return "", false
+				}
+				pat = s
+			}
+		}
+	}
+	return pat, n == 1
+}
+
 func lettersLower(s string) bool {
 	if s == "" {
 		return false
@@ -927,6 +965,50 @@ func runC06(c *Ctx) {
 				}
 			}
 		}
+		// the one-pass form: re.ReplaceAllString(x, R) with re compiled from the constant R+c+"+" (c one letter): every
+		// occurrence of R followed by one or more c becomes R. The result contains no R+c - and so is a fixed point of
+		// rewriting R+c to R - provided the first letter of R occurs nowhere else in R+c (no occurrence can then overlap a
+		// rewritten stretch except at its first letter, where R is followed by something other than c).
+		onePass := map[*ssa.Call]bool{}
+		for _, fn := range fns {
+			for _, call := range core.CallsIn(fn) {
+				cv, isCall := call.(*ssa.Call)
+				if !isCall || core.StaticCalleeName(&cv.Call) != "(*regexp.Regexp).ReplaceAllString" || len(cv.Call.Args) != 3 {
+					continue
+				}
+				to, okTo := core.ConstString(cv.Call.Args[2])
+				pat, okPat := regexpPatternOf(p, cv.Call.Args[0])
+				if !okTo || !okPat || !strings.Contains(pat, "http") {
+					continue
+				}
+				sites = append(sites, cv)
+				onePass[cv] = true
+				good := len(pat) == len(to)+2 && strings.HasPrefix(pat, to) && pat[len(pat)-1] == '+' && lettersLower(pat[:len(pat)-1]) && len(to) > 0 &&
+					strings.Count(pat[:len(pat)-1], to[:1]) == 1
+				if !good {
+					okAll, why = false, fmt.Sprintf("replacing the matches of %q by %q is not recognised as rewriting the secure scheme to a fixed point", pat, to)
+				}
+				if fn.Signature.Results().Len() == 1 && isString(fn.Signature.Results().At(0).Type()) {
+					for _, b := range fn.Blocks {
+						if ret, isRet := b.Instrs[len(b.Instrs)-1].(*ssa.Return); isRet && len(ret.Results) == 1 && ret.Results[0] != ssa.Value(cv) {
+							// the only other thing returned is the parameter itself, behind a test that it does not contain the scheme
+							_, isPrm := ret.Results[0].(*ssa.Parameter)
+							guarded := false
+							for _, ft := range core.FactsAt(b) {
+								if cc, isC := ft.Cond.(*ssa.Call); isC && !ft.Truth && core.StaticCalleeName(&cc.Call) == "strings.Contains" && cc.Call.Args[0] == ret.Results[0] {
+									if k, isK := core.ConstString(cc.Call.Args[1]); isK && k == pat[:len(pat)-1] {
+										guarded = true
+									}
+								}
+							}
+							if !isPrm || !guarded {
+								okAll, why = false, "a path returns "+ret.Results[0].String()+" instead of the rewritten token"
+							}
+						}
+					}
+				}
+			}
+		}
 		pos := "v2/tokenizer.go"
 		if len(sites) > 0 {
 			pos = p.Pos(sites[0].Pos())
@@ -936,6 +1018,10 @@ func runC06(c *Ctx) {
 		}
 		// the rewrite runs to a fixed point (removing an "s" can bring the next one up) ...
 		for _, cv := range sites {
+			if onePass[cv] {
+				c.R.OK("R06.4", "the scheme rewrite is repeated until nothing is left to rewrite", p.Pos(cv.Pos()), "one pass over the matches of scheme+\"s+\": nothing is left to rewrite")
+				continue
+			}
 			from, _ := core.ConstString(cv.Call.Args[1])
 			fix := false
 			for _, ft := range core.FactsAt(cv.Block()) {
@@ -973,7 +1059,7 @@ func runC06(c *Ctx) {
 					switch {
 					case g != nil && rewriteFn[g]:
 						set[cv] = true
-					case rewriteFn[f] && isCallTo(cv, "strings.ReplaceAll"):
+					case rewriteFn[f] && (isCallTo(cv, "strings.ReplaceAll") || onePass[cv]):
 						set[cv] = true
 					case g != nil && g != f && core.FuncPkgPath(g) == v2pkg && g.Signature.Results().Len() == 1 && isString(g.Signature.Results().At(0).Type()) && through(g, depth+1, false):
 						set[cv] = true
